@@ -66,6 +66,16 @@ def main():
             continue
         if props and pid not in props:
             continue
+        try:
+            meta = json.loads((d / "meta.json").read_text())
+        except Exception:  # noqa: BLE001
+            meta = {}
+        if meta.get("superseded_by_fix"):
+            # a later fix: commit removed the defect the change relied on: with the fix its own demonstration passes (kept for the record)
+            summary["not_applicable"] += 1
+            (d / "recheck.json").write_text(json.dumps({"id": d.name, "applies": True, "state": "superseded", "why": meta["superseded_by_fix"]}, indent=1) + "\n")
+            print(d.name, "superseded by a fix (its demo passes with the change applied)")
+            continue
         rc, o = sh(f"git apply --check {d / 'patch.diff'}", cwd=REPO)
         how = "plain"
         if rc != 0:
